@@ -1,6 +1,6 @@
 """C06 — lost frames / vanished peer: exact-or-nothing, bounded give-up with abort, clean follow-up (J1939-21 proved)."""
 import random
-from .. import common as C, corr21, net21, sim
+from .. import common as C, corr21, corr22, net21, sim
 from ..gen21 import rand_payload, TP_CM, TP_DT
 
 PID = 'C06'
@@ -11,7 +11,9 @@ ASSUMPTIONS = ["J1939-22 (FD): correspondence/oracle only until Dll22 theorems e
 
 
 def correspondence(ctx):
-    return corr21.run(ctx, ctx.n(40, 1000), ctx.n(20, 500), 6, n_lossy=ctx.n(160, 6000))
+    a = corr21.run(ctx, ctx.n(40, 1000), ctx.n(20, 500), 6, n_lossy=ctx.n(160, 6000))
+    b = corr22.run(ctx, ctx.n(10, 300), ctx.n(10, 300), 6, n_lossy=ctx.n(80, 3000))     # J1939-22: lost frames / silent peers
+    return corr22.merge(a, b)
 
 
 def shape_case(rng, shape, k, mode):
